@@ -12,14 +12,18 @@ ASSUMPTIONS = ['components in the correspondence run: Gaussian, Poisson, Bernoul
                'Entropy for Mixture<Gaussian>: hand model of the quadrature (break points, 16-point rule) compared with the implementation at the '
                "implementation's own quad_bounds(); accuracy against -∫ f ln f judged only for modes in [-3,3] and widths within a factor 10 "
                '(bound 6e-2; the unchanged rule is off by up to 0.7 for widely separated narrow components: recorded, not judged)',
-               'entropy macros of Mixture<Bernoulli/Categorical/Poisson> not covered here (C08)']
+               'entropies of Mixture<Poisson> (count_entropy_range sweep), Mixture<Bernoulli> (sign as coded), Mixture<Categorical>: hand models compared '
+               'with the implementation; Poisson and Categorical also against -Σ f ln f by enumeration (5e-9 relative)',
+               'existence of mean / variance: StudentsT, InvGamma, InvChiSquared, ScaledInvChiSquared, Pareto components with parameters straddling '
+               'the thresholds, compared with the model at the implementation\'s own component moments']
 N_GEN = {'quick': 0, 'thorough': 0}
 KNOWN = {'accepted_NaN_weight': ('Mixture.validate_weights', 'nan_weight'), 'draw_zero_weight': ('Mixture.draw', 'variate_zero')}
 
 
 # class of a failing case (first column of a FAIL line of cases_c11.py) -> Rust site
 SITE = {'cache': 'Mixture.set_weights', 'hist': 'Mixture.set_weights', 'pareto': 'Mixture.pdf', 'unif': 'Mixture.pdf', 'cat': 'Mixture.pmf',
-        'f32': 'Mixture.variance', 'gauss.entropy': 'Mixture.entropy', 'gauss.entropy.reference': 'Mixture.entropy',
+        'f32': 'Mixture.variance', 'f64': 'Mixture.variance', 'pois.entropy': 'Mixture.entropy', 'pois.entropy.reference': 'Mixture.entropy',
+        'bern.entropy': 'Mixture.entropy', 'cat.entropy': 'Mixture.entropy', 'cat.entropy.reference': 'Mixture.entropy', 'gauss.entropy': 'Mixture.entropy', 'gauss.entropy.reference': 'Mixture.entropy',
         'gauss.quad_bounds': 'Mixture.quad_bounds', 'set_weights': 'Mixture.set_weights', 'new': 'Mixture.new', 'combine': 'Mixture.combine'}
 
 
